@@ -1,40 +1,46 @@
 (* C09 - Exclusive database locks exclude every other holder under all interleavings.
-   Property theorems only; the proofs are in Proofs/Lock.v (safety) and Proofs/LockLive.v.
+   Property theorems only; the proofs are in Proofs/Lock*.v.
 
-   Model/Lock.v: [step cfg s p c] is one file-system call of process p of the lock protocol as repaired by
-   proposed_fixes/C09-lock-revalidate.diff, [step_pinned] the same for the pinned tree; [reachable cfg s]
-   says that s is reached from the empty stack by some sequence of such steps of any processes in any
-   order with any directory-listing order; [cfg] gives every pid its lock kind, its inherited
-   EUPS_LOCK_PID and its retry budget.  holds s p: takeLocks has returned for p and giveLocks has not
-   been called yet.  related cfg p q: one of them is the EUPS_LOCK_PID ancestor of the other. *)
-From Eupsv Require Import Base.Base Model.Lock Proofs.LockLib Proofs.Lock Proofs.LockLive Generated.Locks.
+   Model/Lock.v: [step cfg s p c] is one file-system call of process p of the lock protocol of /repo
+   with proposed_fixes/C09-lock-revalidate.diff and C09-release-on-failure.diff; [step_pinned] is the
+   pinned tree, [run_norelease] the protocol with the first of the two repairs only.  [reachable cfg s]
+   says that s is reached from empty stacks by some sequence of such steps of any processes in any order
+   with any directory-listing order; [cfg] gives every pid its lock kind, its inherited EUPS_LOCK_PID, its
+   retry budget and the path of stacks it locks (in that order; wf cfg: no stack twice in one path).
+   holds s p: takeLocks has returned for p and giveLocks has not been called yet.  related cfg p q: one
+   of them is the EUPS_LOCK_PID ancestor of the other. *)
+From Eupsv Require Import Base.Base Model.Lock Proofs.LockLib Proofs.LockNext Proofs.LockNext2 Proofs.Lock
+  Proofs.LockLive Generated.Locks.
 
 (* ---- mutual exclusion *)
 
-(* at no instant do two unrelated processes both hold if either lock is exclusive: for every schedule,
-   every number of processes, every retry budget *)
-Theorem mutex cfg s p q :
-  reachable cfg s -> holds s p -> holds s q -> p <> q -> ~ related cfg p q ->
+(* at no instant do two unrelated processes both hold a lock on the same stack if either lock is
+   exclusive: for every schedule, every number of processes and of stacks, every retry budget *)
+Theorem mutex cfg s p q k :
+  wf cfg -> reachable cfg s -> holds s p -> holds s q -> p <> q -> ~ related cfg p q ->
+  In k (path_of cfg p) -> In k (path_of cfg q) ->
   kind_of cfg p = Sh /\ kind_of cfg q = Sh.
-Proof. exact (mutex_proof cfg s p q). Qed.
+Proof. exact (mutex_proof true cfg s p q k). Qed.
 Print Assumptions mutex.
 
 (* the boolean form of the same statement, which the driver evaluates on every state of every trace *)
-Corollary mutex_okb_reachable cfg s ps : reachable cfg s -> mutex_okb cfg s ps = true.
+Corollary mutex_okb_reachable cfg s ps : wf cfg -> reachable cfg s -> mutex_okb cfg s ps = true.
 Proof.
-  intro R. unfold mutex_okb. apply forallb_forall. intros p _. apply forallb_forall. intros q _.
+  intros WF R. unfold mutex_okb. apply forallb_forall. intros p _. apply forallb_forall. intros q _.
   destruct (Nat.eqb p q) eqn:E; [reflexivity|]. apply Nat.eqb_neq in E.
   destruct (relatedb cfg p q) eqn:Rl; [reflexivity|].
   destruct (holdsb s p) eqn:Hp; [|reflexivity]. destruct (holdsb s q) eqn:Hq; [|reflexivity].
+  destruct (share_stack cfg p q) eqn:Sh; [|reflexivity].
   assert (NR : ~ related cfg p q) by (intro H; apply relatedb_true in H; congruence).
-  destruct (mutex cfg s p q R Hp Hq E NR) as [Kp Kq]. unfold isEx. now rewrite Kp, Kq.
+  destruct (share_stack_true cfg p q Sh) as (k & Kp & Kq).
+  destruct (mutex cfg s p q k WF R Hp Hq E NR Kp Kq) as [A B]. unfold isEx. now rewrite A, B.
 Qed.
 Print Assumptions mutex_okb_reachable.
 
 (* The pinned protocol does not have the property.  Three check-then-act windows, each with its schedule;
-   process 1 is the shared requester, 3 the exclusive one, 2 a reader that comes and goes. *)
-Definition k_procs : list (pid * (kind * option pid * nat)) :=
-  [(1, (Sh, None, 2)); (2, (Sh, None, 2)); (3, (Ex, None, 2))].
+   process 1 is the shared requester, 3 the exclusive one, 2 a reader that comes and goes; one stack. *)
+Definition k_procs : procs :=
+  [(1, (Sh, None, 2, [0])); (2, (Sh, None, 2, [0])); (3, (Ex, None, 2, [0]))].
 Definition z (l : list pid) : list (pid * choice) := map (fun p => (p, 0)) l.
 (* K1: 3 has made the directory but not its file when 1 scans for exclusive locks *)
 Definition k1_schedule := z [3; 1; 1; 1; 1; 3; 3].
@@ -46,15 +52,17 @@ Definition k3_schedule := z [2; 2; 2; 1; 2; 2; 2; 2; 2; 2; 1; 3; 3; 3].
 Definition both_hold (s : state) : bool := holdsb s 1 && holdsb s 3.
 
 Theorem mutex_refuted_pinned :
-  exists cfg sched p q,
+  exists cfg sched p q k,
     let s := run_pinned cfg init sched in
-    reachable_gen false cfg s /\ holds s p /\ holds s q /\ p <> q /\ ~ related cfg p q /\ kind_of cfg q = Ex.
+    wf cfg /\ reachable_gen false false cfg s /\ holds s p /\ holds s q /\ p <> q /\ ~ related cfg p q /\
+    In k (path_of cfg p) /\ In k (path_of cfg q) /\ kind_of cfg q = Ex.
 Proof.
-  exists (cfg_of k_procs), k1_schedule, 1, 3. cbv zeta.
+  exists (cfg_of k_procs), k1_schedule, 1, 3, 0. cbv zeta.
+  split; [apply wf_cfg_of; reflexivity|].
   split; [apply reachable_run; constructor|].
   split; [vm_compute; reflexivity|]. split; [vm_compute; reflexivity|].
-  split; [discriminate|]. split; [|reflexivity].
-  intros [H|H]; vm_compute in H; discriminate.
+  split; [discriminate|]. split; [intros [H|H]; vm_compute in H; discriminate|].
+  repeat split; vm_compute; auto.
 Qed.
 Print Assumptions mutex_refuted_pinned.
 
@@ -65,83 +73,119 @@ Proof. vm_compute. reflexivity. Qed.
 Example k3_pinned : both_hold (run_pinned (cfg_of k_procs) init k3_schedule) = true.
 Proof. vm_compute. reflexivity. Qed.
 (* the same window between two exclusive children 2 and 3 of the shared holder 1: siblings are unrelated *)
-Definition sib_procs : list (pid * (kind * option pid * nat)) :=
-  [(1, (Sh, None, 2)); (2, (Ex, Some 1, 2)); (3, (Ex, Some 1, 2))].
+Definition sib_procs : procs :=
+  [(1, (Sh, None, 2, [0])); (2, (Ex, Some 1, 2, [0])); (3, (Ex, Some 1, 2, [0]))].
 Example siblings_pinned :
   let s := run_pinned (cfg_of sib_procs) init (z [1; 1; 1; 2; 2; 3; 3; 2; 3; 2; 3]) in
   holdsb s 2 && holdsb s 3 && negb (relatedb (cfg_of sib_procs) 2 3) = true.
 Proof. vm_compute. reflexivity. Qed.
 Example siblings_repaired :
   forallb (fun s => mutex_okb (cfg_of sib_procs) s [1; 2; 3])
-          (trace_gen true (cfg_of sib_procs) init (z [1; 1; 1; 1; 2; 2; 3; 3; 2; 3; 2; 3; 2; 3])) = true.
+          (trace_gen true true (cfg_of sib_procs) init (z [1; 1; 1; 1; 2; 2; 3; 3; 2; 3; 2; 3; 2; 3])) = true.
 Proof. vm_compute. reflexivity. Qed.
 (* the same three schedules under the repaired protocol: nobody holds together with 3 at any point *)
 Example k123_repaired :
   forallb (fun sched => forallb (fun s => mutex_okb (cfg_of k_procs) s [1; 2; 3])
-                                (trace_gen true (cfg_of k_procs) init sched))
+                                (trace_gen true true (cfg_of k_procs) init sched))
           [k1_schedule; k2_schedule; k3_schedule] = true.
 Proof. vm_compute. reflexivity. Qed.
 
-(* ---- what is let through *)
+(* ---- what is let through (processes that lock one stack) *)
+
+(* a process that has not started: about to make its first call, nothing locked *)
+Definition fresh (s : state) (p : pid) : Prop := pc s p = LMkdir /\ nlk s p = 0.
 
 (* a process that runs alone on a free stack gets its lock, shared or exclusive (so mutex is not
    vacuous: holders exist) *)
-Theorem free_stack_acquires cfg s p c :
-  reachable cfg s -> dir s = false -> pc s p = LMkdir ->
+Theorem free_stack_acquires cfg s p c k :
+  wf cfg -> reachable cfg s -> path_of cfg p = [k] -> dir s k = false -> fresh s p ->
   holds (run cfg s (repeat (p, c) 4)) p.
 Proof.
-  intros R D L. destruct (reachable_gen_inv true cfg s R) as (H0 & _).
-  assert (F : files s = []).
-  { destruct (files s) as [|x r] eqn:E; [reflexivity|]. specialize (H0 x). rewrite E in H0.
+  intros WF R P D [L N0]. destruct (reachable_gen_inv true true cfg s WF R) as (H0 & _).
+  assert (F : files s k = []).
+  { destruct (files s k) as [|x r] eqn:E; [reflexivity|]. specialize (H0 k x). rewrite E in H0.
     rewrite D in H0. discriminate H0. now left. }
-  destruct (solo_free_acquires cfg s p c D F L) as (H & _). now apply held_holds.
+  destruct (solo_free_acquires cfg s p c k P D F L N0) as (H & _). now apply held_holds.
 Qed.
 Print Assumptions free_stack_acquires.
 
-(* any number of readers may share: for every n a state in which n shared requesters all hold is reachable *)
-Theorem readers_share cfg n :
-  (forall i, i < n -> kind_of cfg i = Sh) ->
+(* any number of readers may share: for every n a state in which n shared requesters of one stack all
+   hold is reachable *)
+Theorem readers_share cfg k n :
+  (forall i, i < n -> kind_of cfg i = Sh /\ path_of cfg i = [k]) ->
   exists s, reachable cfg s /\ forall i, i < n -> holds s i.
 Proof.
-  intro K. destruct (readers_share_proof cfg n K) as (s & R & H & _). now exists s.
+  intro K. destruct (readers_share_proof cfg k n K) as (s & R & H & _). now exists s.
 Qed.
 Print Assumptions readers_share.
 
 (* a child of the lock holder re-enters its parent's lock: q inherited EUPS_LOCK_PID = p, p holds and is
-   the only locker; then q, whatever kind it asks for and whatever kind p holds, acquires on its first
-   attempt and both hold *)
-Theorem reentry cfg s p q :
-  reachable cfg s -> root_of cfg q = Some p -> q <> p -> holds s p -> files s = [p] -> pc s q = LMkdir ->
+   the only locker of the stack; then q, whatever kind it asks for and whatever kind p holds, acquires on
+   its first attempt and both hold *)
+Theorem reentry cfg s p q k :
+  wf cfg -> reachable cfg s -> path_of cfg q = [k] -> root_of cfg q = Some p -> q <> p ->
+  holds s p -> files s k = [p] -> fresh s q ->
   exists n, let s' := run cfg s (repeat (q, 0) n) in holds s' q /\ holds s' p.
 Proof.
-  intros R Rt Hne Hp F Lq.
-  destruct (reachable_gen_inv true cfg s R) as (H0 & _). destruct (reachable_inv cfg s R) as (HN & _).
-  assert (D : dir s = true) by (apply (H0 p); rewrite F; now left).
+  intros WF R P Rt Hne Hp F [Lq N0].
+  destruct (reachable_gen_inv true true cfg s WF R) as (H0 & _).
+  destruct (reachable_fx_inv true cfg s WF R) as (HN & _).
+  assert (D : dir s k = true) by (apply (H0 k p); rewrite F; now left).
   assert (Lp : pc s p = LHeld).
   { unfold holds, holdsb in Hp. pose proof (HN p). destruct (pc s p); try discriminate; congruence. }
-  destruct (reentry_proof cfg s p q Rt Hne D F Lp Lq) as (n & A & B & _).
+  destruct (reentry_proof cfg s p q k P Rt Hne D F Lp Lq N0) as (n & A & B & _).
   exists n. cbv zeta. split; now apply held_holds.
 Qed.
 Print Assumptions reentry.
 
+(* ---- no residue *)
+
 (* released locks leave no residue: whenever no process is inside takeLocks or giveLocks (every process
-   has not started, is done, has failed or has crashed) the lock directory does not exist *)
-Theorem no_residue cfg s : reachable cfg s -> quiescent s -> dir s = false /\ files s = [].
-Proof. exact (no_residue_proof true cfg s). Qed.
+   has not started, is done, has failed or has crashed) no lock directory exists, on any stack *)
+Theorem no_residue cfg s k : wf cfg -> reachable cfg s -> quiescent s -> dir s k = false /\ files s k = [].
+Proof. exact (no_residue_proof cfg s k). Qed.
 Print Assumptions no_residue.
 
-(* this clause already holds for the pinned protocol *)
-Corollary no_residue_pinned cfg s : reachable_gen false cfg s -> quiescent s -> dir s = false /\ files s = [].
-Proof. exact (no_residue_proof false cfg s). Qed.
-Print Assumptions no_residue_pinned.
+(* a command that failed to take its locks holds nothing: no lock file of its on any stack, also not on the
+   stacks of its path that it had locked before the one that refused it *)
+Theorem no_residue_after_failure cfg s p k :
+  wf cfg -> reachable cfg s -> pc s p = LFailed -> ~ In p (files s k).
+Proof. intros WF R L. apply (ended_owns_nothing cfg s p k WF R). now rewrite L. Qed.
+Print Assumptions no_residue_after_failure.
+
+(* Without the release on failure the clause is false.  Process 1 (exclusive) locks the stacks 0 and 1 in
+   that order, process 2 (a reader) only stack 1.  2 takes stack 1; 1 locks stack 0, is refused on stack 1
+   and gives up; 2 finishes.  Nobody is running and the lock of 1 on stack 0 is still there. *)
+Definition two_procs : procs := [(1, (Ex, None, 1, [0; 1])); (2, (Sh, None, 1, [1]))].
+Definition two_schedule := z [2; 2; 2; 2; 1; 1; 1; 1; 1; 1; 1; 2; 2; 2; 2; 2; 2].
+
+Theorem no_residue_refuted_norelease :
+  exists cfg sched,
+    let s := run_norelease cfg init sched in
+    wf cfg /\ reachable_gen true false cfg s /\ pc s 1 = LFailed /\ pc s 2 = LDone /\
+    dir s 0 = true /\ files s 0 = [1].
+Proof.
+  exists (cfg_of two_procs), two_schedule. cbv zeta.
+  split; [apply wf_cfg_of; reflexivity|].
+  split; [apply reachable_run; constructor|].
+  repeat split; vm_compute; reflexivity.
+Qed.
+Print Assumptions no_residue_refuted_norelease.
+
+(* the same schedule, continued by the five calls with which 1 now gives stack 0 back, under the protocol
+   with both repairs: everything is clean *)
+Example two_stacks_repaired :
+  let s := run (cfg_of two_procs) init (z [2; 2; 2; 2; 1; 1; 1; 1; 1; 1; 1; 1; 1; 1; 1; 1; 2; 2; 2; 2; 2; 2]) in
+  pc s 1 = LFailed /\ pc s 2 = LDone /\ dir s 0 = false /\ dir s 1 = false /\ files s 0 = [] /\ files s 1 = [].
+Proof. vm_compute. repeat split; reflexivity. Qed.
 
 (* a reachable, non-trivial state satisfying the hypotheses of mutex: two readers hold, a writer has just
-   created its file and is about to look again *)
+   created its file and is about to withdraw it *)
 Example hypotheses_inhabited :
   let cfg := cfg_of k_procs in
   let s := run cfg init (z [3; 3; 1; 1; 1; 1; 1; 2; 2; 2; 2; 2; 3; 3]) in
-  holdsb s 1 = true /\ holdsb s 2 = true /\ pc s 3 = LGive true GIsdir /\ files s = [3; 2; 1].
-Proof. vm_compute. repeat split; reflexivity. Qed.
+  wf cfg /\ holdsb s 1 = true /\ holdsb s 2 = true /\ pc s 3 = LGive GBackoff GIsdir /\ files s 0 = [3; 2; 1].
+Proof. split; [apply wf_cfg_of; reflexivity|]. vm_compute. repeat split; reflexivity. Qed.
 
 (* ---- which commands take which lock (table regenerated from cmd.py and setupcmd.py on every run) *)
 
